@@ -36,6 +36,11 @@ def draw_alphas(rng, k):
             a = round(float(rng.uniform(*k["alpha_range"])), int(rng.integers(2, 5)))
         if 0 < a < 1 and a not in out:
             out.append(a)
+    if n >= 2 and chance(rng, 0.25):
+        # two levels that agree to two decimals (0.99 / 0.995, 0.9 / 0.896): distinct requests that are easy to conflate
+        b = round(out[0] + choice(rng, [-0.004, 0.004, 0.005, -0.005]), 3)
+        if 0 < b < 1 and b not in out:
+            out[1] = b
     return out
 
 
@@ -117,15 +122,15 @@ def make_profile(rng, world, knobs=None):
         if chance(rng, 0.7):
             mp["lambda_"] = choice(rng, [0, 0.001, 0.1, 1.0, 10])
         if chance(rng, 0.3):
-            mp["seed"] = int(rng.integers(0, 10000))
+            mp["seed"] = choice(rng, [0, 1, int(rng.integers(0, 10000))])
         if chance(rng, 0.2):
             mp["agg_model_hard_threshold"] = False
         if chance(rng, 0.3):
             mp["national_summary_correlation"] = False
     if pi != "bootstrap" and chance(rng, k["lambda_p"]):
         mp["lambda_"] = choice(rng, [0.01, 1.0])
-    if pi != "bootstrap" and chance(rng, 0.2):
-        mp["seed"] = int(rng.integers(0, 10000))
+    if pi != "bootstrap" and chance(rng, 0.25):
+        mp["seed"] = choice(rng, [0, 0, 1, int(rng.integers(0, 10000))])  # 0 is a legal seed (and falsy)
     return dict(
         pi_method=pi,
         estimands=estimands,
